@@ -66,6 +66,7 @@ type Cfg struct {
 	Close        CloseSpec
 	ReadAt       time.Duration // the observer looks at the system when it is quiescent at this virtual time
 	APICalls     bool          // issue the public API calls again after shutdown (C12)
+	RaceAPI      bool          // a driver issues Subscribe/Clone/Refilter/List concurrently with everything else (C12)
 	Mode         string
 	Bound        int
 }
@@ -101,6 +102,10 @@ type Obs struct {
 	Finished      bool
 	Clock         int64
 	PostAPI       []string // results of API calls issued after Done
+	RaceAPI       []string // results of API calls racing with shutdown
+	RaceDone      bool
+	LeafClosed    map[string]bool // leaf path -> its Events() channel was closed (consumer ran to the end)
+	LeafEvents    map[string][]string
 	ProbeDelivered map[string]bool
 	HistDone      bool
 }
@@ -113,6 +118,7 @@ type Inst struct {
 	Nodes []*hx.Node
 	O     Obs
 	cancel context.CancelFunc
+	serverAtRead []metav1.Object
 }
 
 func (in *Inst) apply(m Mut) {
@@ -171,6 +177,8 @@ func (in *Inst) Run() {
 	in.O.NodeReady = map[string]bool{}
 	in.O.NodeDone = map[string]bool{}
 	in.O.ProbeDelivered = map[string]bool{}
+	in.O.LeafClosed = map[string]bool{}
+	in.O.LeafEvents = map[string][]string{}
 	for _, m := range c.Pre {
 		in.apply(m)
 	}
@@ -231,6 +239,43 @@ func (in *Inst) Run() {
 			in.doClose(c.Close.Kind)
 		}()
 	}
+	var raced []interface{ Done() <-chan struct{} }
+	if c.RaceAPI {
+		go func() {
+			rec := func(name string, err error) {
+				s := name + ":ok"
+				if err != nil {
+					s = name + ":" + err.Error()
+				}
+				in.O.RaceAPI = append(in.O.RaceAPI, s)
+			}
+			sub, err := ctrl.Subscribe()
+			rec("Subscribe", err)
+			if err == nil {
+				raced = append(raced, sub)
+			}
+			fc, err := ctrl.CloneWithFilter(hx.MkFilter(2))
+			rec("CloneWithFilter", err)
+			if err == nil {
+				raced = append(raced, fc)
+				rec("Refilter", fc.Refilter(hx.MkFilter(3)))
+				s2, err := fc.Subscribe()
+				rec("Clone.Subscribe", err)
+				if err == nil {
+					raced = append(raced, s2)
+				}
+			}
+			_, err = ctrl.Cache().List()
+			rec("List", err)
+			ds, err := ctrl.SubscribeForFilter()
+			rec("SubscribeForFilter", err)
+			if err == nil {
+				raced = append(raced, ds)
+				rec("Refilter2", ds.Refilter(hx.MkFilter(2)))
+			}
+			in.O.RaceDone = true
+		}()
+	}
 	// the observer
 	vs.SleepIdle(c.ReadAt)
 	in.O.ObserverRan = true
@@ -240,7 +285,8 @@ func (in *Inst) Run() {
 	} else {
 		in.O.CacheAtRead = hx.ListString(l)
 	}
-	in.O.ServerAtRead = hx.ListString(in.Srv.Objects())
+	in.serverAtRead = in.Srv.Objects()
+	in.O.ServerAtRead = hx.ListString(in.serverAtRead)
 	in.O.ReadyAtRead = hx.IsClosed(ctrl.Ready())
 	in.O.DoneAtRead = hx.IsClosed(ctrl.Done())
 	if in.O.DoneAtRead {
@@ -264,6 +310,10 @@ func (in *Inst) Run() {
 		}
 		in.O.NodeReady[n.Path] = hx.IsClosed(n.Ready())
 		in.O.NodeDone[n.Path] = hx.IsClosed(n.Done())
+		if n.IsLeaf() {
+			in.O.LeafClosed[n.Path] = n.EventsClosed
+			in.O.LeafEvents[n.Path] = append([]string{}, n.Received...)
+		}
 	})
 	vs.Atomic(in.Srv, func() {
 		in.O.Lists, in.O.Watches, in.O.MaxFlight = in.Srv.Lists, in.Srv.Watches, in.Srv.MaxFlight
@@ -279,6 +329,10 @@ func (in *Inst) Run() {
 	}
 	<-ctrl.Done()
 	in.O.DoneAfterClose = true
+	// an object returned by a call racing with shutdown is itself shut down
+	for _, x := range raced {
+		<-x.Done()
+	}
 	if e := ctrl.Error(); e != nil {
 		in.O.ErrAfterDone = e.Error()
 	}
@@ -437,4 +491,47 @@ func BlockedNames(r *vs.Result) []string {
 	}
 	sort.Strings(out)
 	return out
+}
+
+// ExpectedNodeCache renders what the cache of the node at path should hold at observation time: the server
+// content filtered by the controller filter and by every filter on the path ("" if the path has a deferred node).
+func (in *Inst) ExpectedNodeCache(path string) string {
+	fs := []int{in.C.Filter}
+	var find func(ns []*hx.Node) *hx.Node
+	find = func(ns []*hx.Node) *hx.Node {
+		for _, n := range ns {
+			if n.Path == path {
+				return n
+			}
+			if x := find(n.Children); x != nil {
+				return x
+			}
+		}
+		return nil
+	}
+	n := find(in.Nodes)
+	if n == nil {
+		return ""
+	}
+	for x := n; x != nil; x = x.Parent {
+		switch x.Spec.Kind {
+		case "fsub", "fclone":
+			fs = append(fs, x.Spec.Filter)
+		case "dsub", "dclone":
+			return ""
+		}
+	}
+	var out []metav1.Object
+	for _, o := range in.serverAtRead {
+		ok := true
+		for _, f := range fs {
+			if !hx.RefAccept(f, o) {
+				ok = false
+			}
+		}
+		if ok {
+			out = append(out, o)
+		}
+	}
+	return hx.ListString(out)
 }
